@@ -27,7 +27,7 @@ MUTANTS = [
     M("c05-div-swap", "C05", "break", [(OPS, "input._data, op(input._scale, other))", "input._data, op(other, input._scale))")], "C05.R4"),
     M("c05-div-nonscalar-redispatch", "C05", "break", [(OPS, "        return qfallback(op, input, other, rounding_mode=rounding_mode)", "        return op(input.dequantize(), other, rounding_mode=rounding_mode)")], "C05.R2"),
     M("c05-mul-wrong-scale", "C05", "break", [(OPS, "other._data, input * other._scale)", "other._data, other._scale)")], "C05.R4"),
-    M("c05-mul-scalar-guard-dropped", "C05", "break", [(OPS, "    if is_scalar(other):\n        return QBytesTensor(input.qtype, input.axis, input.size(), input.stride(), input._data, other * input._scale)\n    return qfallback(op, input, other)", "    return QBytesTensor(input.qtype, input.axis, input.size(), input.stride(), input._data, other * input._scale)")], None),
+    M("c05-mul-scalar-guard-dropped", "C05", "break", [(OPS, "    if is_scalar(other) and other >= 0:\n        return QBytesTensor(input.qtype, input.axis, input.size(), input.stride(), input._data, other * input._scale)\n    return qfallback(op, input, other)", "    return QBytesTensor(input.qtype, input.axis, input.size(), input.stride(), input._data, other * input._scale)")], None),
     M("c05-relu-drop-float-guard", "C05", "break", [(OPS, "    if input.qtype.is_floating_point:\n        # Relu is not supported for float8 types\n        return qfallback(op, input)\n", "")], "C05.R6"),
     M("c05-softmax-fixed-127", "C05", "break", [(OPS, "1 / dtype_info(input.qtype.dtype).max", "1 / 127")], "C05.R10"),
     M("c05-softmax-scale-dtype", "C05", "break", [(OPS, "dtype=input._scale.dtype).to(input.device)", "dtype=torch.float32).to(input.device)")], "C05.R10"),
